@@ -9,7 +9,7 @@ from ..machine import run_units, trap_kind
 from .. import parunits
 from .args import parse
 
-MODULES = ["harness.corpus.parallel", "harness.corpus.basic", "harness.corpus.configs"]
+MODULES = ["harness.corpus.parallel", "harness.corpus.depmat", "harness.corpus.basic", "harness.corpus.configs"]
 
 
 def main():
